@@ -30,7 +30,7 @@ EmitEdge == PrintT(<<"EDGE", ToJson(EdgeRec)>>)
 NoEmit   == TRUE
 
 progView == <<pre, hist>>
-ProgramRec == [pre |-> pre, modes |-> Modes, medias |-> Medias, calls |-> hist]
+ProgramRec == [pre |-> pre, modes |-> Modes, medias |-> Medias, envs |-> Envs, calls |-> hist]
 EmitProgram == Len(hist) = MaxLen => PrintT(<<"PROGRAM", ToJson(ProgramRec)>>)
 
 (* for -simulate runs: print the behaviour when it reaches the bound *)
